@@ -745,17 +745,15 @@ func (t *trzszTransfer) pipelineRecvAck(ctx *pipelineContext, size int64, ackCha
 				ignoreChunkTimeCount = kAckChanBufferSize + 2
 			}
 
-			// chunks that were on their way while the peer sat at its stop/continue question say nothing about the
-			// link; in the probing phase the bookkeeping below still has to run, with their time taken as unknown
-			acrossPause := ignoreChunkTimeCount > 0
-			if acrossPause {
+			if ignoreChunkTimeCount > 0 {
+				// chunks that were on their way while the peer sat at its stop/continue question say nothing about the
+				// link: the chunk size stays as it is, a sender that is still probing goes on with its next chunk
 				ignoreChunkTimeCount--
-			}
-			if !acrossPause || t.bufInitPhase.Load() {
-				chunkTime := time.Since(ack.begin)
-				if acrossPause {
-					chunkTime = 0
+				if t.bufInitPhase.Load() {
+					t.ackBufInit()
 				}
+			} else {
+				chunkTime := time.Since(ack.begin)
 				bufSize := t.bufferSize.Load()
 
 				if length == bufSize && chunkTime < 500*time.Millisecond && bufSize < t.transferConfig.MaxBufSize {
